@@ -94,12 +94,16 @@ def parse_dump(text):
     i, n = 0, len(lines)
     while i < n:
         line = lines[i]
-        if line.startswith("fn ") and line.endswith("{"):
-            m = HEADER_RE.match(line)
-            if not m:
+        cm = re.match(r"^const (.+::promoted\[\d+\]): (.+) = \{$", line)
+        if (line.startswith("fn ") and line.endswith("{")) or cm:
+            m = HEADER_RE.match(line) if not cm else None
+            if not m and not cm:
                 i += 1
                 continue
-            name, params_s, ret = m.group(1), m.group(2), m.group(3)
+            if cm:
+                name, params_s, ret = cm.group(1), "", cm.group(2)
+            else:
+                name, params_s, ret = m.group(1), m.group(2), m.group(3)
             params = []
             if params_s.strip():
                 for p in split_top(params_s):
